@@ -72,10 +72,12 @@ PROPS = {
     },
     "C14": {
         "lean": "Emu.Props.C14",
-        "diffs": [{"cmd": "bt", "scenario": "c14", "quick": 100, "thorough": 2500}],
+        "diffs": [{"cmd": "bt", "scenario": "c14", "quick": 100, "thorough": 2500},
+                  # "unreachable", "removes" and "starts empty" also hold for the next process: the crash programs of C08
+                  {"cmd": "btcrash", "scenario": "c08", "quick": 12, "thorough": 200, "corpus": "btcrash"}],
         "facts": ["bt.server_rpc_methods", "bt.table_mutex"],
-        "trusted": BT_TRUST,
-        "assumptions": [],
+        "trusted": BT_TRUST + ["(crash stage) rename(2)/unlink(2) are atomic; a goleveldb row write is atomic and survives the death of the process; goleveldb recovers its journal; a copy of the directory taken at an instant is what a process killed at that instant leaves"],
+        "assumptions": ["(crash stage) crash positions are the request boundaries and the verifCrashPoint hooks, as for C08"],
     },
     "C16": {
         "lean": "Emu.Props.C16",
